@@ -32,6 +32,11 @@ type hdRecipient struct {
 	T  string   `json:"t"` // session, user, room, call
 	Id *hdIdRef `json:"id,omitempty"`
 	U  int      `json:"u,omitempty"`
+	// members the recipient's type does not call for (validation accepts them; the type alone decides who is addressed,
+	// so the model's term does not carry them): a user id on a session / room / call recipient, a session id on a
+	// user / room / call recipient
+	SU  int      `json:"su,omitempty"`
+	SId *hdIdRef `json:"sid,omitempty"`
 }
 
 const hdChatRefreshTag = 77
@@ -275,6 +280,17 @@ func (s *hdSystem) privSid(privateId string) uint64 {
 }
 
 func (r *hdRun) recipient(to *hdRecipient) (map[string]interface{}, string) {
+	rec, term := r.recipientPlain(to)
+	if to.SU > 0 && to.T != "user" {
+		rec["userid"] = hdUser(to.SU)
+	}
+	if to.SId != nil && to.T != "session" {
+		rec["sessionid"], _ = r.resolve(to.SId)
+	}
+	return rec, term
+}
+
+func (r *hdRun) recipientPlain(to *hdRecipient) (map[string]interface{}, string) {
 	switch to.T {
 	case "session":
 		s, term := r.resolve(to.Id)
